@@ -25,7 +25,7 @@ def install(w):
 
     def _re_match_start(ex, st, args):
         """re_match_start(pattern, subject, flags): re.match(pattern, subject, flags) is not None"""
-        return Val(mkb(RE_START(ex.as_str(st, args[0], None), ex.as_str(st, args[1], None), ex.as_int(st, args[2]))), bool)
+        return Val(mkb(RE_START(V.sval(args[0].t), V.sval(args[1].t), ex.as_int(st, args[2]))), bool)
 
     from pyvc.world import SpecFun as _SF
 
@@ -61,7 +61,8 @@ def install(w):
             ex.trusted_used.add(A_RE)
             # whether it matches is a fixed (unknown) function of pattern, subject and flags - a different one for match (at the
             # start) and search (anywhere); a match at the start is a match somewhere
-            ps, ss = ex.as_str(st, pat, node), ex.as_str(st, subj, node)
+            # (pattern and subject are strings by the signatures of the callers; no obligation is raised about it here)
+            ps, ss = V.sval(pat.t), V.sval(subj.t)
             matched = (RE_START if kind == "match" else RE_ANY)(ps, ss, z3.IntVal(fl))
             st.assume(z3.Implies(RE_START(ps, ss, z3.IntVal(fl)), RE_ANY(ps, ss, z3.IntVal(fl))))
             obj = ex.new_object(st, re.Match)
